@@ -26,7 +26,7 @@ def names (tr : Trace) : List String := tr.map (·.1)
 def callsOf (n : String) (tr : Trace) : List (List String) := (tr.filter (·.1 == n)).map (·.2)
 
 /-- `a` occurs, and some `b` occurs after its first occurrence. -/
-def before (a b : String) (l : List String) : Bool := ((l.dropWhile (· != a)).drop 1).contains b
+def before (a b : String) (l : List String) : Bool := ((l.dropWhile (fun x => !(x == a))).drop 1).any (fun x => x == b)
 
 /-! ## `respIsECSDependent` -/
 
@@ -264,5 +264,246 @@ theorem set_chooses_cache (mw : S_ecscache_Middleware) (resp : Option String) (c
   have : decide (ttl = 0) = false := by simp [h]
   cases dep <;> by_cases h2 : (mw.overrideTTL && !decide (rcode = 2)) = true <;>
     simp [Middleware_set, callsOf, this, h2]
+
+
+/-! ## `setECS`, `addrToNetIP`, `IsDO` -/
+
+/-- The address bytes are taken only from an address of the requested family; any other family
+number is an error. -/
+theorem addrToNetIP_family (ip : String) (fam : Int) (is6 is4 : Bool) (a4 : String) (b4 bs : List Int) :
+    let r := addrToNetIP ip fam is6 a4 b4 is4 bs
+    (r.2.1 = none ↔ (fam = 1 ∧ is6 = false) ∨ (fam = 2 ∧ is4 = false)) ∧
+    (fam = 1 → is6 = false → r.1 = b4 ∧ names r.2.2 = ["Is6", "As4"]) ∧
+    (fam = 2 → is4 = false → r.1 = bs ∧ r.2.2 = [("Is4", [ip]), ("AsSlice", [ip])]) := by
+  unfold addrToNetIP
+  by_cases h1 : fam = 1 <;> by_cases h2 : fam = 2 <;> cases is6 <;> cases is4 <;> simp [h1, h2, names] <;> omega
+
+/-- The ECS option `setECS` writes: family = `ecsFam`, source length = the length of `ecs.Subnet`
+(as a byte), scope = that same length in a response and `0` in a query, address = what `addrToNetIP`
+made of the subnet's address.  It becomes the last option; when the message already had an OPT RR all
+ECS options are removed from the message first. -/
+theorem setECS_option (msg : Option String) (ecs : S_dnsmsg_ECS) (fam : Int) (isResp : Bool) (ip : List Int)
+    (bits : Int) (opt : Option String) (ad : Bool) (newopt : Option String) (old : List (Option String)) :
+    ∃ tr, setECS msg (some ecs) fam isResp (ip, none) bits opt ad newopt old = some (none, tr) ∧
+      callsOf "addrToNetIP" tr = [[ecs.Subnet ++ ".Addr" ++ "(" ++ ")", toString fam]] ∧
+      callsOf "Bits" tr = [[ecs.Subnet]] ∧
+      callsOf "opt.Option =" tr = [[toString (old ++ [some ("dns.EDNS0_SUBNET{" ++ "Code=" ++ toString (8 : Int) ++ ";" ++
+        "Family=" ++ toString fam ++ ";" ++ "SourceNetmask=" ++ toString (goWrapU 256 bits) ++ ";" ++
+        "SourceScope=" ++ toString (if isResp then goWrapU 256 bits else 0) ++ ";" ++
+        "Address=" ++ toString ip ++ ";" ++ "}")])]] ∧
+      (opt ≠ none → before "rmECSOpts" "opt.Option =" (names tr) = true ∧ callsOf "rmECSOpts" tr = [[toString msg]]) ∧
+      (opt = none → callsOf "SetEdns0" tr = [[toString msg, toString (4096 : Int), toString (!isResp || ad)]]) := by
+  cases isResp <;> cases opt <;> simp [setECS, callsOf, names, before]
+
+/-- If the subnet's address does not fit the family, nothing is written into the message. -/
+theorem setECS_bad_family (msg : Option String) (ecs : S_dnsmsg_ECS) (fam : Int) (isResp : Bool) (ip : List Int) (e : String)
+    (bits : Int) (opt : Option String) (ad : Bool) (newopt : Option String) (old : List (Option String)) :
+    match setECS msg (some ecs) fam isResp (ip, some e) bits opt ad newopt old with
+    | some (err, tr) => err ≠ none ∧ names tr = ["addrToNetIP"]
+    | none => False := by
+  simp [setECS, names]
+
+theorem isDO_tr (msg opt : Option String) (d : Bool) :
+    (IsDO msg opt d).1 = (opt.isSome && d) := by
+  simp [IsDO]
+
+/-! ## Writing responses -/
+
+/-- A cached answer carries an ECS option exactly when the query carried a valid one: `setECS` is
+called iff `ecs ≠ nil`, with the client's own ECS data, as a response (scope = source length), before
+the message is written. -/
+theorem cached_response_echo (ctx rw req resp : Option String) (ecs : Option S_dnsmsg_ECS) (fam : Int)
+    (dep : Bool) (se wm : Option String) :
+    let r := writeCachedResponse ctx rw req resp ecs fam dep se wm
+    callsOf "setECS" r.2 = (match ecs with
+      | some e => [[toString resp, reprStr (some e), toString fam, toString true]]
+      | none => []) ∧
+    (se = none ∨ ecs = none → callsOf "WriteMsg" r.2 = [[toString rw, toString ctx, toString req, toString resp]]) ∧
+    (ecs ≠ none → se ≠ none → r.1 ≠ none ∧ "WriteMsg" ∉ names r.2) ∧
+    (ecs ≠ none → se = none → before "setECS" "WriteMsg" (names r.2) = true) := by
+  cases ecs <;> cases se <;> cases wm <;> simp [writeCachedResponse, callsOf, names, before]
+
+/-- An upstream answer with a malformed ECS option is an error: nothing is cached, nothing written. -/
+theorem upstream_bad_ecs (mw : S_ecscache_Middleware) (ctx rw req resp : Option String)
+    (ri : Option S_agd_RequestInfo) (cr : Option S_ecscache_cacheRequest) (fam : Int) (sub : String) (sc : Int) (e : String)
+    (dep : Bool) (nm : String) (ad : Bool) (se wm : Option String) (z : String) :
+    match Middleware_writeUpstreamResponse mw ctx rw req resp ri cr fam (sub, sc, some e) dep nm ad se wm z with
+    | some (err, tr) => err ≠ none ∧ names tr = ["ECSFromMsg"]
+    | none => False := by
+  simp [Middleware_writeUpstreamResponse, names]
+
+/-- An upstream answer is judged by the scope of *its* ECS option and the question name.  If it is
+not ECS-dependent it is stored under the zero prefix of the family: the subnet of the cache request is
+replaced by `netutil.ZeroPrefix(ecsFam)` before `set`. -/
+theorem upstream_independent_stored_under_zero (mw : S_ecscache_Middleware) (ctx rw req resp : Option String)
+    (ri : S_agd_RequestInfo) (cr : S_ecscache_cacheRequest) (fam : Int) (sub : String) (sc : Int)
+    (nm : String) (ad : Bool) (se wm : Option String) (z : String) :
+    match Middleware_writeUpstreamResponse mw ctx rw req resp (some ri) (some cr) fam (sub, sc, none) false nm ad se wm z with
+    | none => False
+    | some (res, tr) =>
+      callsOf "respIsECSDependent" tr = [[toString sc, nm]] ∧
+      callsOf "ZeroPrefix" tr = [[toString fam]] ∧
+      callsOf "set" tr = [[toString resp, reprStr (some { cr with subnet := z }), toString false]] := by
+  cases hE : ri.ECS <;> cases se <;> cases wm <;>
+    simp [Middleware_writeUpstreamResponse, callsOf, hE]
+
+/-- An ECS-dependent answer is stored under the request's own subnet (the cache request unchanged). -/
+theorem upstream_dependent_stored_under_subnet (mw : S_ecscache_Middleware) (ctx rw req resp : Option String)
+    (ri : S_agd_RequestInfo) (cr : S_ecscache_cacheRequest) (fam : Int) (sub : String) (sc : Int)
+    (nm : String) (ad : Bool) (se wm : Option String) (z : String) :
+    match Middleware_writeUpstreamResponse mw ctx rw req resp (some ri) (some cr) fam (sub, sc, none) true nm ad se wm z with
+    | none => False
+    | some (res, tr) =>
+      callsOf "respIsECSDependent" tr = [[toString sc, nm]] ∧
+      callsOf "ZeroPrefix" tr = [] ∧
+      callsOf "set" tr = [[toString resp, reprStr (some cr), toString true]] := by
+  cases hE : ri.ECS <;> cases se <;> cases wm <;>
+    simp [Middleware_writeUpstreamResponse, callsOf, hE]
+
+
+/-- The store happens before the client's ECS option is put into the message; that option is echoed
+iff the query had a valid one (`ri.ECS ≠ nil`), with the client's own data, as a response. -/
+theorem upstream_response_echo (mw : S_ecscache_Middleware) (ctx rw req resp : Option String)
+    (ri : S_agd_RequestInfo) (cr : S_ecscache_cacheRequest) (fam : Int) (sub : String) (sc : Int)
+    (dep : Bool) (nm : String) (ad : Bool) (se wm : Option String) (z : String) :
+    match Middleware_writeUpstreamResponse mw ctx rw req resp (some ri) (some cr) fam (sub, sc, none) dep nm ad se wm z with
+    | none => False
+    | some (res, tr) =>
+      callsOf "setECS" tr = (match ri.ECS with
+        | some e => [[toString resp, reprStr (some e), toString fam, toString true]]
+        | none => []) ∧
+      (ri.ECS ≠ none → before "set" "setECS" (names tr) = true) ∧
+      (ri.ECS = none ∨ se = none → before "set" "WriteMsg" (names tr) = true ∧
+        callsOf "WriteMsg" tr = [[toString rw, toString ctx, toString req, toString resp]]) := by
+  cases dep <;> cases hE : ri.ECS <;> cases se <;> cases wm <;>
+    simp [Middleware_writeUpstreamResponse, callsOf, names, before, hE]
+
+/-! ## `mwHandler.ServeDNS` -/
+
+/-- The ECS data handed to `setECS` for the upstream query when the cache request carries `sub`. -/
+def upstreamECS (sub : String) : Option S_dnsmsg_ECS := some ⟨none, sub, 0⟩
+
+/-- The client opted out (`ri.ECS ≠ nil` with a zero-length prefix): GeoIP is not asked for a
+subnet at all; the cache is consulted with the zero prefix of the family and the opt-out flag set; on
+a miss the upstream query gets exactly that zero prefix with scope 0, and the handler that is called is
+given the clone that `setECS` modified, never the client's message. -/
+theorem declined_zero_prefix_upstream (mh : S_ecscache_mwHandler) (ctx rw req : Option String)
+    (cr : S_ecscache_cacheRequest) (ri : S_agd_RequestInfo) (e : S_dnsmsg_ECS) (hE : ri.ECS = some e)
+    (isDO : Bool) (fam : Int) (z : String) (dep : Bool) (wc clone : Option String)
+    (nrw : Option S_dnsserver_NonWriterResponseWriter) (up msg wu : Option String) (sbl : String × Option String) :
+    match mwHandler_ServeDNS mh ctx rw req (some cr) (some ri) isDO fam 0 z (none, dep) wc clone none nrw up msg wu sbl with
+    | none => False
+    | some (res, tr) =>
+      "SubnetByLocation" ∉ names tr ∧
+      callsOf "ZeroPrefix" tr = [[toString fam]] ∧
+      callsOf "get" tr = [[toString ctx, toString req,
+        reprStr (some ({ host := ri.Host, subnet := z, qType := ri.QType, qClass := ri.QClass, reqDO := isDO, isECSDeclined := true } : S_ecscache_cacheRequest))]] ∧
+      callsOf "setECS" tr = [[toString clone, reprStr (upstreamECS z), toString fam, toString false]] ∧
+      callsOf "ServeDNS" tr = [[toString mh.next, toString ctx, reprStr nrw, toString clone]] ∧
+      before "setECS" "ServeDNS" (names tr) = true := by
+  cases up <;> cases msg <;>
+    simp [mwHandler_ServeDNS, callsOf, names, before, hE, upstreamECS]
+
+/-- Every other client: GeoIP is asked for the subnet of `locFromReq(ri)` (the location attributed to
+the ECS option's address, else to the client's) in the family `ecsFamFromReq(ri)`; the cache is
+consulted with that subnet; on a miss the upstream query carries exactly the subnet GeoIP returned,
+scope 0 — whatever the client's address or the prefix it supplied. -/
+theorem geo_subnet_upstream (mh : S_ecscache_mwHandler) (ctx rw req : Option String)
+    (cr : S_ecscache_cacheRequest) (ri : S_agd_RequestInfo) (bits : Int)
+    (hnd : ri.ECS = none ∨ bits ≠ 0) (loc : S_geoip_Location) (hloc : locFromReq (some ri) = some (some loc))
+    (isDO : Bool) (fam : Int) (z : String) (dep : Bool) (wc clone : Option String)
+    (nrw : Option S_dnsserver_NonWriterResponseWriter) (up msg wu : Option String) (sub : String)
+    (mw : S_ecscache_Middleware) (hmw : mh.mw = some mw) :
+    match mwHandler_ServeDNS mh ctx rw req (some cr) (some ri) isDO fam bits z (none, dep) wc clone none nrw up msg wu (sub, none) with
+    | none => False
+    | some (res, tr) =>
+      "ZeroPrefix" ∉ names tr ∧
+      callsOf "SubnetByLocation" tr = [[toString mw.geoIP, reprStr (some loc), toString fam]] ∧
+      callsOf "get" tr = [[toString ctx, toString req,
+        reprStr (some ({ host := ri.Host, subnet := sub, qType := ri.QType, qClass := ri.QClass, reqDO := isDO, isECSDeclined := false } : S_ecscache_cacheRequest))]] ∧
+      callsOf "setECS" tr = [[toString clone, reprStr (upstreamECS sub), toString fam, toString false]] ∧
+      callsOf "ServeDNS" tr = [[toString mh.next, toString ctx, reprStr nrw, toString clone]] ∧
+      before "SubnetByLocation" "get" (names tr) = true ∧ before "setECS" "ServeDNS" (names tr) = true := by
+  have hdec : ((ri.ECS).isSome && decide (bits = 0)) = false := by
+    rcases hnd with h | h <;> simp [h]
+  cases up <;> cases msg <;>
+    simp [mwHandler_ServeDNS, callsOf, names, before, hdec, hloc, upstreamECS, hmw]
+
+/-- A GeoIP failure ends the request with an error before the cache or the upstream is touched. -/
+theorem geo_error_stops (mh : S_ecscache_mwHandler) (ctx rw req : Option String)
+    (cr : S_ecscache_cacheRequest) (ri : S_agd_RequestInfo) (bits : Int)
+    (hnd : ri.ECS = none ∨ bits ≠ 0) (loc : S_geoip_Location) (hloc : locFromReq (some ri) = some (some loc))
+    (isDO : Bool) (fam : Int) (z : String) (g : Option String × Bool) (wc clone se : Option String)
+    (nrw : Option S_dnsserver_NonWriterResponseWriter) (up msg wu : Option String) (sub e : String) :
+    match mwHandler_ServeDNS mh ctx rw req (some cr) (some ri) isDO fam bits z g wc clone se nrw up msg wu (sub, some e) with
+    | none => False
+    | some (res, tr) => res ≠ none ∧ "get" ∉ names tr ∧ "setECS" ∉ names tr ∧ "ServeDNS" ∉ names tr := by
+  have hdec : ((ri.ECS).isSome && decide (bits = 0)) = false := by
+    rcases hnd with h | h <;> simp [h]
+  simp [mwHandler_ServeDNS, names, hdec, hloc]
+
+/-- A cache hit is written with the client's own ECS data (`ri.ECS`) and the flag the cache returned;
+the upstream is not consulted and no query is built. -/
+theorem cache_hit_no_upstream (mh : S_ecscache_mwHandler) (ctx rw req : Option String)
+    (cr : S_ecscache_cacheRequest) (ri : S_agd_RequestInfo) (bits : Int)
+    (loc : S_geoip_Location) (hloc : locFromReq (some ri) = some (some loc))
+    (isDO : Bool) (fam : Int) (z : String) (hit : String) (dep : Bool) (wc clone se : Option String)
+    (nrw : Option S_dnsserver_NonWriterResponseWriter) (up msg wu : Option String) (sub : String) :
+    match mwHandler_ServeDNS mh ctx rw req (some cr) (some ri) isDO fam bits z (some hit, dep) wc clone se nrw up msg wu (sub, none) with
+    | none => False
+    | some (res, tr) => res = wc ∧ "setECS" ∉ names tr ∧ "ServeDNS" ∉ names tr ∧ "Clone" ∉ names tr ∧
+        callsOf "writeCachedResponse" tr = [[toString ctx, toString rw, toString req, toString (some hit),
+          reprStr ri.ECS, toString fam, toString dep]] := by
+  cases hd : ((ri.ECS).isSome && decide (bits = 0)) <;>
+    simp [mwHandler_ServeDNS, callsOf, names, hd, hloc]
+
+/-- After a successful upstream exchange the response, the request information and the cache request
+(with the subnet that was sent upstream) go to `writeUpstreamResponse`; an upstream that wrote nothing
+ends the request without a response. -/
+theorem upstream_result_processed (mh : S_ecscache_mwHandler) (ctx rw req : Option String)
+    (cr : S_ecscache_cacheRequest) (ri : S_agd_RequestInfo) (bits : Int)
+    (hnd : ri.ECS = none ∨ bits ≠ 0) (loc : S_geoip_Location) (hloc : locFromReq (some ri) = some (some loc))
+    (isDO : Bool) (fam : Int) (z : String) (dep : Bool) (wc clone : Option String)
+    (nrw : Option S_dnsserver_NonWriterResponseWriter) (msg wu : Option String) (sub : String) :
+    match mwHandler_ServeDNS mh ctx rw req (some cr) (some ri) isDO fam bits z (none, dep) wc clone none nrw none msg wu (sub, none) with
+    | none => False
+    | some (res, tr) =>
+      (msg = none → res = none ∧ "writeUpstreamResponse" ∉ names tr) ∧
+      (msg ≠ none → res = wu ∧ callsOf "writeUpstreamResponse" tr = [[toString ctx, toString rw, toString req, toString msg,
+        reprStr (some ri),
+        reprStr (some ({ host := ri.Host, subnet := sub, qType := ri.QType, qClass := ri.QClass, reqDO := isDO, isECSDeclined := false } : S_ecscache_cacheRequest)),
+        toString fam]]) := by
+  have hdec : ((ri.ECS).isSome && decide (bits = 0)) = false := by
+    rcases hnd with h | h <;> simp [h]
+  cases msg <;> simp [mwHandler_ServeDNS, callsOf, names, hdec, hloc]
+
+/-- `ServeDNS` does not panic when the pool and the context deliver non-nil values. -/
+theorem serveDNS_total (mh : S_ecscache_mwHandler) (ctx rw req : Option String)
+    (cr : S_ecscache_cacheRequest) (ri : S_agd_RequestInfo)
+    (isDO : Bool) (fam bits : Int) (z : String) (g : Option String × Bool) (wc clone se : Option String)
+    (nrw : Option S_dnsserver_NonWriterResponseWriter) (up msg wu : Option String) (sbl : String × Option String) :
+    mwHandler_ServeDNS mh ctx rw req (some cr) (some ri) isDO fam bits z g wc clone se nrw up msg wu sbl ≠ none := by
+  obtain ⟨loc, hloc⟩ := locFromReq_total ri
+  cases hd : ((ri.ECS).isSome && decide (bits = 0)) <;> cases hg : g.1 <;> cases se <;> cases up <;> cases msg <;>
+    cases hs : sbl.2 <;> simp [mwHandler_ServeDNS, hd, hloc, hg, hs]
+
+example : (mwHandler_ServeDNS ⟨none, none⟩ none none none none none false 1 0 "" (none, false) none none none none none none none ("", none)) = none := by
+  decide
+
+
+/-! ## Non-vacuity of the hypotheses -/
+
+/-- A request from a client located in "US"/AS 15169 with a valid non-zero ECS option located in "DE". -/
+def ri0 : S_agd_RequestInfo :=
+  { DeviceResult := none, Location := some ⟨"US", "NA", "", 15169⟩,
+    ECS := some ⟨some ⟨"DE", "EU", "BE", 3320⟩, "192.0.2.0/24", 0⟩,
+    FilteringGroup := none, Messages := none, ServerGroup := none, RemoteIP := "198.51.100.7", Server := "",
+    Host := "example.org", ID := "", QType := 1, QClass := 1, Proto := 0 }
+
+example : locFromReq (some ri0) = some (some ⟨"DE", "", "BE", 3320⟩) := by decide
+example : ri0.ECS = none ∨ (24 : Int) ≠ 0 := by decide
+example : ∃ cn : String → Nat, ∀ s, cn s = 0 ↔ s = "" := ⟨fun s => if s = "" then 0 else 1, by intro s; by_cases h : s = "" <;> simp [h]⟩
+example : (ecsFamFromReq (some ri0) "192.0.2.0" true) = some (1, [("Addr", ["192.0.2.0/24"]), ("Is4", ["192.0.2.0"])]) := by decide
+example : ({ host := "h", subnet := "s", qType := 1, qClass := 1, reqDO := false, isECSDeclined := true } : S_ecscache_cacheRequest).isECSDeclined = true := rfl
 
 end Agd.Tie.TrC05
